@@ -193,7 +193,8 @@ def run_check(pid, tier, seed, replay=None):
         if coq_err:
             what.append("model run: " + coq_err[:1500])
         payload = {"property": pid, "what": "no longer shown to hold: " + " | ".join(what) if what else "correspondence broken",
-                   "theorems": [t[0] for t in pr["theorems"] if not t[2]]}
+                   "theorems": [t[0] for t in pr["theorems"] if not t[2]],
+                   "failed_statement": pr.get("failed_statement")}
         if unexplained_tie:
             c, d, m = unexplained_tie[0]
             payload["correspondence"] = {"first_disagreement": d, "case": case_json(c),
